@@ -77,6 +77,15 @@ def selectors():
             for v in variants('tx'):
                 for flag in (None, 'i', 's'):
                     out.append((S.cx(S.cp(None, ('attr', None, n, op, v, flag))),))
+    # the same attribute reached through a namespace form of the selector: the case rules must not depend on the spelling
+    for ns in ('*', ''):
+        for n in ('type', 'TYPE'):
+            for op in ('=', '^=', '$=', '*='):
+                for v in variants('tx'):
+                    for flag in (None, 'i', 's'):
+                        out.append((S.cx(S.cp(None, ('attr', ns, n, op, v, flag))),))
+        for v in variants('vx'):
+            out.append((S.cx(S.cp(None, ('attr', ns, 'k', '=', v, None))),))
     for c in variants('cc'):
         out.append((S.cx(S.cp(None, ('class', c))),))
         out.append((S.cx(S.cp(S.T('AB'), ('class', c))),))
